@@ -1593,6 +1593,10 @@ impl MintAssets {
         if value.0 == 0 {
             return Err(JsError::from_str("MintAssets cannot be created with 0 value"));
         }
+        // a mint field holds nonZeroInt64 quantities
+        if value.0 > i64::MAX as i128 || value.0 < i64::MIN as i128 {
+            return Err(JsError::from_str("MintAssets value does not fit a 64-bit signed integer"));
+        }
         Ok(self.0.insert(key.clone(), value.clone()))
     }
 
